@@ -8,7 +8,7 @@ use crate::util::{guard, par_map, Kv};
 
 pub fn meta(_ctx: &Ctx) -> Meta {
     Meta {
-        rule: "block layer lists {[dense],[dense,dense]} (flat) and {[conv],[conv,conv],[deconv],[conv,deconv],[conv,pool]} (spatial, shape-preserving) x activations {linear, ReLU, tanh} x loops L in 1..4 (1..9 for three of the block lists) x all 4 skip-flag combinations x all 5 accumulations x followed by a dense layer or not x fed by the network input or a preceding layer (dense -> block of spatial layers included) x 2 data valuations (exact small-integer data, inputs multiples of 60 for mean; the second valuation of linear / ReLU blocks scaled by 2^-20) plus the blank sample (all-zero input) for every block, plus blocks NEAR A FIXED POINT of their repeated map (x -> g x + (1-g), g in {2, 1/2}, started 1 / 8 ulp from the fixed point, L in {8,16,22}, all flags and accumulations). Oracles: a block without skips equals, bit for bit, the plain network in which its layer list is written out L times; reference interpreter rep_1=f(x), rep_i=f(comb(rep_{i-1},[x])) with input skips, out=comb(rep_L,[rep_1..rep_{L-1}]) with output skips. Non-trivial = reference output has >= 2 distinct non-zero entries".into(),
+        rule: "block layer lists {[dense],[dense,dense]} (flat) and {[conv],[conv,conv],[deconv],[conv,deconv],[conv,pool]} (spatial, shape-preserving) x activations {linear, ReLU, tanh} x loops L in 1..4 (1..9 for three of the block lists) x all 4 skip-flag combinations x all 5 accumulations x followed by a dense layer or not x fed by the network input or a preceding layer (dense -> block of spatial layers included) x 2 data valuations (exact small-integer data, inputs multiples of 60 for mean; the second valuation of linear / ReLU blocks scaled by 2^-20) plus the blank sample (all-zero input) for every block, plus identity blocks on inputs near +-3e38 (the mean of such values is representable, their sum is not), plus blocks NEAR A FIXED POINT of their repeated map (x -> g x + (1-g), g in {2, 1/2}, started 1 / 8 ulp from the fixed point, L in {8,16,22}, all flags and accumulations). Oracles: a block without skips equals, bit for bit, the plain network in which its layer list is written out L times; reference interpreter rep_1=f(x), rep_i=f(comb(rep_{i-1},[x])) with input skips, out=comb(rep_L,[rep_1..rep_{L-1}]) with output skips. Non-trivial = reference output has >= 2 distinct non-zero entries".into(),
         bound: "L <= 4, block lists of <= 2 layers, planes 3x3 and 3x4; complete product".into(),
         exhaustive: true,
         assumptions: vec!["bit-exact agreement is counted; the verdict uses tolerance 2e-6*max|reference| for linear/ReLU blocks (division by 3 is not exact) and 5e-4*max|reference| for tanh blocks".into()],
@@ -122,7 +122,15 @@ pub fn check(seed: u64, case: &Kv, rep: &mut Report) {
     let shapes = ref_shapes(&net).unwrap();
     let (loops, inskips, outskips, acc) = fb_of(&net);
     let key = format!("{}#{}", net.name(), v);
-    let fp = if v >= 8 { Some(fixed_point_data(&net, if v == 8 { 2.0 } else { 0.5 })) } else { None };
+    // valuation 6: identity blocks (gain 1) on inputs near the end of the range - a mean of values near +-3e38 is
+    // representable although their sum is not; the only arithmetic is the accumulation itself
+    let fp = if v >= 8 {
+        Some(fixed_point_data(&net, if v == 8 { 2.0 } else { 0.5 }))
+    } else if v == 6 {
+        Some((fixed_point_data(&net, 1.0).0, vec![2.0e38, -3.0e38]))
+    } else {
+        None
+    };
     if fp.is_some() {
         rep.count("near_fixed_point_cases", 1);
     }
@@ -145,7 +153,7 @@ pub fn check(seed: u64, case: &Kv, rep: &mut Report) {
     );
     // tanh saturates on integer data and amplifies single-precision rounding: looser tolerance there
     let smooth = net.name().contains("tanh");
-    match predict_vs_ref(&net, &params, &x, if smooth { 5e-4 } else { 2e-6 }) {
+    match predict_vs_ref_limit(&net, &params, &x, if smooth { 5e-4 } else { 2e-6 }, if v == 6 { 3.4e38 } else { 1.0e30 }) {
         Ok(ok) => {
             if ok.nontrivial {
                 rep.nontrivial += 1;
@@ -204,6 +212,20 @@ pub fn run(ctx: &Ctx) -> Report {
     // the blank sample for every block, and blocks near a fixed point of their repeated map
     cs.extend(ns.iter().map(|n| Kv::new().put("net", n.name()).put("val", 7)));
     cs.extend(fixed_point_nets().iter().flat_map(|n| [8usize, 9].into_iter().map(move |v| Kv::new().put("net", n.name()).put("val", v))));
+    // identity blocks on inputs near +-3e38 (2, 3 and 8 repetitions, all flags and accumulations)
+    for n in fixed_point_nets() {
+        let mut m = n.clone();
+        for l in m.layers.iter_mut() {
+            if let L::Fb { loops, .. } = l {
+                *loops = match *loops {
+                    8 => 2,
+                    16 => 3,
+                    x => x / 22 * 8,
+                };
+            }
+        }
+        cs.push(Kv::new().put("net", m.name()).put("val", 6));
+    }
     let seed = ctx.seed;
     let chunks: Vec<&[Kv]> = cs.chunks(128).collect();
     let parts = par_map(&chunks, |_, c| {
